@@ -236,8 +236,8 @@ func (s *Sched) acquire(m any, read bool, real func()) {
 		}
 		t.state = tsLockWait
 		t.want, t.wantR = m, read
+		s.env.Stats.Probes["sched:lock-contended"]++ // (under s.mu: several goroutines can be here at once)
 		s.mu.Unlock()
-		s.env.Stats.Probes["sched:lock-contended"]++
 		s.park(t)
 	}
 	real()
